@@ -5,3 +5,7 @@ import OlVerif.Props.C14
 #print axioms OlVerif.C14.import_stmt
 #print axioms OlVerif.C14.from_import
 #print axioms OlVerif.C14.load_idem
+#print axioms OlVerif.C14.step_eq
+#print axioms OlVerif.C14.import_program
+#print axioms OlVerif.C14.ol_step_loaded
+#print axioms OlVerif.C14.ol_run_loaded
